@@ -149,3 +149,152 @@ package tally
 //@   requires h != nil
 //@   ensures @one_clock_read one_more() && calls[old(len(calls))] == evn("time.Now") && result.start == res0(old(len(calls)))
 //@   ensures @recorder is(result.recorder, *histogram) && dyn(result.recorder, *histogram) == h
+
+// ---------------------------------------------------------------------------
+// C01: counters
+
+//@ protocol counterDelta
+//@   property C01
+//@   self c *counter
+//@   shared curr, prev
+//@   ghost incs int64, delivered int64
+//@   local acc int64
+//@   inv @curr_is_sum_of_increments c.curr == incs
+//@   inv @prev_is_sum_of_deliveries c.prev == delivered
+//@   threads (*counter).Inc, (*counter).value
+//@   on add curr: incs = wrap64(incs + v)
+//@   on store prev: delivered = wrap64(delivered + (after - before)); acc = wrap64(acc + (after - before))
+//@   on cas prev: delivered = wrap64(delivered + (after - before)); acc = wrap64(acc + (after - before))
+//@   on swap prev: delivered = wrap64(delivered + (after - before)); acc = wrap64(acc + (after - before))
+//@   ensures in (*counter).value: @returns_exactly_what_it_took_from_prev result == acc
+//@   loop (*counter).value 1 invariant @nothing_taken_yet acc == 0
+
+//@ protocol counterNonneg
+//@   property C01
+//@   self c *counter
+//@   shared curr, prev
+//@   assume @totals_stay_below_2_61 0 <= c.curr && c.curr <= 2305843009213693952
+//@   assume in (*counter).Inc: @nonneg_increments 0 <= v && v <= 2305843009213693952
+//@   inv @prev_le_curr 0 <= c.prev && c.prev <= c.curr
+//@   rely @monotone c.curr >= old(c.curr) && c.prev >= old(c.prev)
+//@   threads (*counter).Inc, (*counter).value
+//@   ensures in (*counter).value: @no_negative_delta result >= 0
+//@   loop (*counter).value 1 invariant @trivial true
+
+//@ func (*counter).value
+//@   property C01
+//@   requires c != nil
+//@   modifies c.prev
+//@   ensures @delta result == wrap64(old(c.curr) - old(c.prev))
+//@   ensures @prev_advanced c.prev == old(c.curr)
+//@   ensures @curr_kept c.curr == old(c.curr)
+//@   ensures @quiet quiet()
+//@   loop 1 invariant @unchanged c.prev == old(c.prev) && c.curr == old(c.curr) && quiet()
+
+//@ func (*counter).report
+//@   property C01
+//@   emits
+//@   requires c != nil && r != nil
+//@   modifies c.prev
+//@   ensures @zero_suppressed old(c.curr) == old(c.prev) ==> quiet()
+//@   ensures @one_delivery old(c.curr) != old(c.prev) ==> one_more() && calls[old(len(calls))] == ev(StatsReporter.ReportCounter, r, name, tags, wrap64(old(c.curr) - old(c.prev)))
+//@   ensures @consumed c.prev == old(c.curr) && c.curr == old(c.curr)
+
+//@ func (*counter).cachedReport
+//@   property C01
+//@   emits
+//@   requires c != nil && c.cachedCount != nil
+//@   modifies c.prev
+//@   ensures @zero_suppressed old(c.curr) == old(c.prev) ==> quiet()
+//@   ensures @one_delivery old(c.curr) != old(c.prev) ==> one_more() && calls[old(len(calls))] == ev(CachedCount.ReportCount, c.cachedCount, wrap64(old(c.curr) - old(c.prev)))
+//@   ensures @consumed c.prev == old(c.curr) && c.curr == old(c.curr)
+
+//@ func (*counter).snapshot
+//@   property C01, C11
+//@   requires c != nil
+//@   ensures @unreported result == wrap64(c.curr - c.prev)
+//@   ensures @quiet quiet()
+
+//@ func newCounter
+//@   property C01
+//@   allocs
+//@   ensures @fresh result != nil && fresh(result)
+//@   ensures @zero result.curr == 0 && result.prev == 0 && same(result.cachedCount, cachedCount)
+//@   ensures @quiet quiet()
+
+// ---------------------------------------------------------------------------
+// C02: gauges
+//
+// Ghost state: nUpd = number of value stores by Update, lastUpd = bits of the last
+// one, updSet = all bits ever stored; nFlagStores = number of flag raises;
+// nDeliveries = number of successful flag swaps (tokens taken); lastDel = bits most
+// recently loaded for delivery; pendingN = updaters between their two stores
+// (0/1: one updater per gauge); midRep = reporters between swap and load.
+
+//@ protocol gaugeFlag
+//@   property C02
+//@   self g *gauge
+//@   shared curr, updated
+//@   ghost nUpd int, lastUpd int, updSet set, nFlagStores int, nDeliveries int, lastDel int, pendingN int, midRep int
+//@   local myPending int, myMid int, loaded int, tookToken bool
+//@   counter pendingN by myPending
+//@   counter midRep by myMid
+//@   single (*gauge).Update
+//@   threads (*gauge).Update, (*gauge).report, (*gauge).cachedReport
+//@   inv @flag_is_bit g.updated == 0 || g.updated == 1
+//@   inv @counts_nonneg nUpd >= 0 && nFlagStores >= 0 && nDeliveries >= 0 && pendingN >= 0 && midRep >= 0
+//@   inv @curr_is_last_update nUpd > 0 ==> updSet[g.curr] && g.curr == lastUpd
+//@   inv @token_implies_update (g.updated == 1 || midRep > 0) ==> nUpd > 0
+//@   inv @deliveries_le_updates nDeliveries + g.updated <= nFlagStores && nFlagStores + pendingN <= nUpd
+//@   inv @fresh_when_quiet (g.updated == 0 && pendingN == 0 && midRep == 0 && nDeliveries > 0) ==> lastDel == g.curr
+//@   inv @no_update_no_delivery nFlagStores == 0 ==> nDeliveries == 0
+//@   rely in (*gauge).Update: @single_updater g.curr == old(g.curr) && nUpd == old(nUpd) && lastUpd == old(lastUpd) && nFlagStores == old(nFlagStores) && updSet == old(updSet)
+//@   rely in (*gauge).Update: @single_updater_count pendingN == myPending
+//@   rely @monotone nUpd >= old(nUpd) && nFlagStores >= old(nFlagStores) && nDeliveries >= old(nDeliveries)
+//@   assume in (*gauge).Update: @one_updater_not_mid pendingN == 0
+//@   on store curr: nUpd = nUpd + 1; lastUpd = after; updSet[after] = true; pendingN = pendingN + 1; myPending = myPending + 1
+//@   on store updated: nFlagStores = nFlagStores + 1; pendingN = pendingN - myPending; myPending = 0
+//@   on swap updated: nDeliveries = nDeliveries + before; midRep = midRep + before; myMid = myMid + before; tookToken = before == 1
+//@   on load curr: loaded = after; lastDel = (myMid == 1 ? after : lastDel); midRep = midRep - myMid; myMid = 0
+//@   ensures in (*gauge).report, (*gauge).cachedReport: @delivered_value_was_updated tookToken ==> updSet[loaded]
+//@   ensures in (*gauge).report, (*gauge).cachedReport: @no_token_no_delivery !tookToken ==> len(calls) == old(len(calls))
+//@   ensures in (*gauge).report, (*gauge).cachedReport: @at_most_one_delivery len(calls) <= old(len(calls)) + 1
+
+//@ lemma gauge_fresh [C02]: forall upd, pend, mid, ndel, lastDel, curr, lastUpd, nupd int :: ((upd == 0 && pend == 0 && mid == 0 && ndel > 0) ==> lastDel == curr) && (nupd > 0 ==> curr == lastUpd) && (ndel > 0 ==> nupd > 0) ==> ((upd == 0 && pend == 0 && mid == 0 && ndel > 0) ==> lastDel == lastUpd)
+
+//@ func (*gauge).Update
+//@   property C02
+//@   requires g != nil
+//@   modifies g.curr, g.updated
+//@   ensures @stored g.curr == bits(v) && g.updated == 1
+//@   ensures @quiet quiet()
+
+//@ func (*gauge).report
+//@   property C02
+//@   emits
+//@   requires g != nil && r != nil
+//@   modifies g.updated
+//@   ensures @not_redelivered old(g.updated) != 1 ==> quiet()
+//@   ensures @one_delivery old(g.updated) == 1 ==> one_more() && calls[old(len(calls))] == ev(StatsReporter.ReportGauge, r, name, tags, frombits(g.curr))
+//@   ensures @flag_cleared g.updated == 0 && g.curr == old(g.curr)
+
+//@ func (*gauge).cachedReport
+//@   property C02
+//@   emits
+//@   requires g != nil && g.cachedGauge != nil
+//@   modifies g.updated
+//@   ensures @not_redelivered old(g.updated) != 1 ==> quiet()
+//@   ensures @one_delivery old(g.updated) == 1 ==> one_more() && calls[old(len(calls))] == ev(CachedGauge.ReportGauge, g.cachedGauge, frombits(g.curr))
+//@   ensures @flag_cleared g.updated == 0 && g.curr == old(g.curr)
+
+//@ func (*gauge).snapshot
+//@   property C02, C11
+//@   requires g != nil
+//@   ensures @last_update same(result, frombits(g.curr))
+//@   ensures @quiet quiet()
+
+//@ func newGauge
+//@   property C02
+//@   allocs
+//@   ensures @fresh result != nil && fresh(result)
+//@   ensures @zero result.curr == 0 && result.updated == 0 && same(result.cachedGauge, cachedGauge)
